@@ -109,7 +109,3 @@ func cmdVerify(args []string) {
 	}
 }
 
-func cmdCheck(args []string) {
-	fmt.Fprintln(os.Stderr, "not implemented yet")
-	os.Exit(2)
-}
